@@ -1008,6 +1008,16 @@ func (c *Conn) closeWithError(err error) error {
 func (c *Conn) closeWithErrorWithoutLock(err error) error {
 	c.closeErr = err
 
+	// a dial that is still pending fails with the reason of the close.
+	if onConnected := c.onConnected; onConnected != nil {
+		c.onConnected = nil
+		dialErr := err
+		if dialErr == nil {
+			dialErr = net.ErrClosed
+		}
+		onConnected(c, dialErr)
+	}
+
 	if c.writeList != nil {
 		for _, t := range c.writeList {
 			c.releaseToWrite(t)
